@@ -26,7 +26,7 @@ PACKAGES = {
 NOT_APPLICABLE = {}
 
 # commits in /repo that add verif-tagged hooks
-HOOK_COMMITS = ["87c6d7a", "b0d1f5a", "a9b19f9"]
+HOOK_COMMITS = ["87c6d7a", "b0d1f5a", "a9b19f9", "53d4471"]
 
 # properties whose check is finished and registered in MANIFEST.json
 READY = ["C%02d" % i for i in range(1, 21)]
